@@ -55,7 +55,7 @@ func runC16(c *eng.Ctx, tier string) {
 		return
 	}
 	newStore := p.Func(setecPkg, "NewStore")
-	poll := p.Method(setecPkg, "Store", "poll")
+	poll := anchor(p, setecPkg, "(*Store).poll")
 	g := p.CallGraph()
 
 	// R-C16-1
@@ -82,7 +82,7 @@ func runC16(c *eng.Ctx, tier string) {
 	if newStore != nil {
 		prepub[newStore] = true
 	}
-	if f := p.Method(setecPkg, "Store", "initializeActive"); f != nil {
+	if f := anchor(p, setecPkg, "(*Store).initializeActive"); f != nil {
 		prepub[f] = true
 	}
 	for _, f := range p.PkgFuncs(setecPkg) {
